@@ -16,10 +16,6 @@
 -/
 import CatVerif.Proofs.Hold
 import CatVerif.Proofs.Log
-import CatVerif.Proofs.Setters.Reset
-import CatVerif.Proofs.Setters.HoldSet
-import CatVerif.Proofs.Steps.Hold
-import CatVerif.Proofs.Steps.Loops
 namespace Cat
 open St
 
@@ -91,26 +87,5 @@ theorem C14_all_kinds_hold : Gen.process_write_loop 4 = [.enableHold] ∧ Gen.pr
 /-- non-vacuity: a held state with a pending OK release satisfies the hypotheses of `C14_release_once` -/
 example : let s : St := { (default : St) with state := .hold, holdFlag := true, holdExitStatus := 1 }
     s.state = .hold ∧ s.holdExitStatus ≠ 0 ∧ (s.holdFlag = true ↔ s.state = .hold) := by decide
-
-/-- entering the hold: the model's `enableHoldState` is the assignment list of `enable_hold_state`
-in the source (translator item T7), and leaving a line through `reset_state` likewise -/
-theorem C14_hold_setters_generated (D : Desc) (s : St) :
-    enableHoldState s = Gen.enable_hold_state D s ∧ resetState s = Gen.reset_state D s :=
-  ⟨enableHoldState_generated D s, resetState_generated D s⟩
-
-/-- the release from HOLD is the text regenerated from `process_hold_state` (translator item T9) -/
-theorem C14_release_generated (D : Desc) (s : St) : processHoldState D s = Gen.process_hold_state D s :=
-  processHoldState_generated D s
-
-/-- `hold_exit` (refused outside a hold; otherwise records OK or ERROR) is the function whose
-statements are re-recognised in the source on every run (translator item T14) -/
-theorem C14_hold_exit_generated : holdExit = Gen.hold_exit := holdExit_generated
-
-/-- the four handler loops — where a HOLD answer puts the machine on hold and a HOLD_EXIT answer releases it — have the
-shape re-recognised in the source on every run (translator item T19; their return-code tables are T3) -/
-theorem C14_loops_generated (D : Desc) (s : St) (f : Fsm) (i : SvcIn) :
-    processWriteLoop D s i = Gen.process_write_loop_fn D s i ∧ processRunLoop D s i = Gen.process_run_loop_fn D s i ∧
-    processReadLoop D s f i = Gen.process_read_loop_fn D s f i ∧ processTestLoop D s f i = Gen.process_test_loop_fn D s f i :=
-  ⟨rfl, rfl, rfl, rfl⟩
 
 end Cat
